@@ -33,7 +33,7 @@ func tmpSize(dir string) int64 {
 // handed over before the Write that made data appear, and the size that appeared.
 func firstFlush(piece, limit int) (handed int, appeared int64, err error) {
 	dir, dst := setup(oldSpec{kind: "absent"})
-	defer os.RemoveAll(dir)
+	defer cleanup(dir)
 	buf := make([]byte, piece)
 	werr := safe.WriteFileWithMode(dst, func(w io.Writer) error {
 		for handed <= limit {
@@ -60,7 +60,7 @@ func firstFlush(piece, limit int) (handed int, appeared int64, err error) {
 // sizesAfter hands over the given pieces and reports the temporary file's size after each.
 func sizesAfter(pieces ...int) ([]int64, error) {
 	dir, dst := setup(oldSpec{kind: "absent"})
-	defer os.RemoveAll(dir)
+	defer cleanup(dir)
 	var out []int64
 	werr := safe.WriteFileWithMode(dst, func(w io.Writer) error {
 		for _, n := range pieces {
